@@ -228,6 +228,49 @@ pub fn protocol_family(acc: &mut Acc) {
     acc.count("record-iterator protocol files", 1);
 }
 
+/// sections: the records of `parent.section(a..b)` are the records of a fresh mapping over exactly those bytes - for every
+/// a <= b of small texts with multi-byte characters (a section may start or end inside one), with and without
+/// iterating the parent first. What a handle learnt about the whole text must not leak into its sections.
+pub const SECTION_TEXTS: [&str; 4] = ["\u{e9}.\u{dc} -> \u{e9}:\n    int f -> \u{fc}\n", "a.B -> c:\n    1:2:void \u{e9}(\u{dc}):3 -> m\n# \u{fc}: \u{e9}\n", "\u{65e5}\u{672c} -> \u{8a9e}:\r\n# {\"id\":\"sourceFile\",\"fileName\":\"\u{1F600}.kt\"}\r\n", "A -> a:\n    void m() -> x\n"];
+pub fn sections_family(acc: &mut Acc) {
+    fn shown(m: &ProguardMapping<'_>, cap: usize) -> Vec<String> {
+        m.iter().take(cap).map(|r| match r {
+            Ok(rec) => format!("{:?}", rec),
+            Err(e) => format!("Err({:?})", esc(e.line())),
+        }).collect()
+    }
+    for text in SECTION_TEXTS {
+        let s = text.as_bytes();
+        for parent_first in [false, true] {
+            let r = guarded(|| {
+                let parent = ProguardMapping::new(s);
+                if parent_first {
+                    let _ = parent.iter().count();
+                    let _ = (parent.has_line_info(), parent.is_valid());
+                }
+                for a in 0..=s.len() {
+                    for b in a..=s.len() {
+                        let got = shown(&parent.section(a..b), s.len() + 2);
+                        let exp = shown(&ProguardMapping::new(&s[a..b]), s.len() + 2);
+                        if got != exp {
+                            return Some((a, b, format!("section({}..{}) of {:?} (parent iterated first: {}) iterates {:?}; a fresh mapping over the same bytes iterates {:?}", a, b, esc(s), parent_first, got, exp)));
+                        }
+                    }
+                }
+                None
+            });
+            acc.states += ((s.len() + 1) * (s.len() + 2) / 2) as u64;
+            acc.observations += ((s.len() + 1) * (s.len() + 2) / 2) as u64;
+            match r {
+                Ok(None) => {}
+                Ok(Some((a, b, d))) => acc.violation("section:records-differ-from-fresh-mapping", b - a, || (d.clone(), json!({"kind":"sections"}))),
+                Err(p) => acc.violation(format!("panic:{}", panic_site(&p)), 0, || (format!("panic {} (sections of {:?})", p, esc(s)), json!({"kind":"sections"}))),
+            }
+        }
+    }
+    acc.count("section(a..b) record comparisons", 1);
+}
+
 /// every split of one string at a line break (LF, lone CR, CRLF)
 fn check_splits(s: &[u8], joined: &mut Vec<u8>, acc: &mut Acc) {
     for (i, &c) in s.iter().enumerate() {
@@ -539,6 +582,7 @@ pub fn run(tier: Tier) -> i32 {
                 }
                 cut_family(&mut joined, acc);
                 protocol_family(acc);
+                sections_family(acc);
                 long_line_family(&mut joined, acc);
                 error_run_family(&mut joined, acc);
             }
@@ -586,7 +630,7 @@ pub fn run(tier: Tier) -> i32 {
         prop: "C06",
         tier,
         level: "model_checking",
-        rule: format!("inputs enumerated exhaustively: all byte strings of length <= {} over the 9 symbols LF CR SP a : # 1 - >; all strings of <= {} tokens over the 19-token alphabet (UTF-8 byte order mark, backslash, single space, delimiters, sourceFile prefix, '\"}}', invalid UTF-8, Latin-1 'numeric' byte, 30-digit run); every split of each of them at LF / lone CR / CRLF; all pairs (A, B) with A <= {} tokens, B <= 2 tokens joined by LF (and by CR and CRLF with A one token shorter); the cut family (14 well-formed lines cut at every byte, x 3 contexts before x 2 after x 3 line breaks); the long-line family (malformed, well-formed and digit-run lines of 1023..2^20+16 bytes followed by ordinary lines); the error-run family (99..100000 consecutive malformed lines followed by ordinary lines); line-boundary splits of the corpus files; the iterator-protocol family (every file of <= 4 lines over an 8-line alphabet x 4 terminators: nth / skip / step_by / last / count / size_hint and partial consumption must see the items of repeated next(), i.e. skipping k items of A + linebreak + B skips exactly k items). Oracle: iteration ends within len+1 items without panic, no yielded string contains CR/LF, records(A+linebreak+B) = records(A)++records(B) (Ok records exactly, Err items by offending line modulo terminator, zero-length error items ignored). states = strings / pairs / splits; distinct = distinct item streams", sym_depth, tok_depth, amax),
+        rule: format!("(plus: the records of every section(a..b) of four small texts with multi-byte characters, with and without iterating the parent first, must be the records of a fresh mapping over those bytes) inputs enumerated exhaustively: all byte strings of length <= {} over the 9 symbols LF CR SP a : # 1 - >; all strings of <= {} tokens over the 19-token alphabet (UTF-8 byte order mark, backslash, single space, delimiters, sourceFile prefix, '\"}}', invalid UTF-8, Latin-1 'numeric' byte, 30-digit run); every split of each of them at LF / lone CR / CRLF; all pairs (A, B) with A <= {} tokens, B <= 2 tokens joined by LF (and by CR and CRLF with A one token shorter); the cut family (14 well-formed lines cut at every byte, x 3 contexts before x 2 after x 3 line breaks); the long-line family (malformed, well-formed and digit-run lines of 1023..2^20+16 bytes followed by ordinary lines); the error-run family (99..100000 consecutive malformed lines followed by ordinary lines); line-boundary splits of the corpus files; the iterator-protocol family (every file of <= 4 lines over an 8-line alphabet x 4 terminators: nth / skip / step_by / last / count / size_hint and partial consumption must see the items of repeated next(), i.e. skipping k items of A + linebreak + B skips exactly k items). Oracle: iteration ends within len+1 items without panic, no yielded string contains CR/LF, records(A+linebreak+B) = records(A)++records(B) (Ok records exactly, Err items by offending line modulo terminator, zero-length error items ignored). states = strings / pairs / splits; distinct = distinct item streams", sym_depth, tok_depth, amax),
         bounds: json!({"byte_string_length": sym_depth, "token_string_depth": tok_depth, "pairs": {"A_tokens": amax, "B_tokens": 2}, "tokens": TOKENS.iter().map(|t| esc(t)).collect::<Vec<_>>(), "corpus": "small files: every line boundary; the two files > 100 kB: every 1024th (quick) / 32nd (thorough) line boundary - that part is a stride, not exhaustive"}),
         assumptions: vec!["reading I3: a zero-length error item (blank tail after an error line) is not a malformed line".into()],
         trusted_base: vec!["rustc/std".into(), "Debug formatting of ProguardRecord for exact comparison of Ok records".into()],
@@ -602,6 +646,7 @@ pub fn recheck(case: &Value) -> Vec<String> {
             let s = unesc(case["text"].as_str().unwrap_or(""));
             protocol_one(&s, &mut acc);
         }
+        "sections" => sections_family(&mut acc),
         "bytes" => {
             let s = unesc(case["text"].as_str().unwrap_or(""));
             if check_single(&s, &mut acc) {
